@@ -32,6 +32,28 @@ fn main() {
         child::worker_main();
         return;
     }
+    if args[1] == "replay" {
+        // execute the op lines of a file against the real code, one output line per op
+        let text = std::fs::read_to_string(&args[2]).expect("read ops file");
+        let tables = std::sync::Arc::new(keys::Tables::new(4000, 8));
+        let mut node: Option<node::NodeExec> = None;
+        let mut ex = ChildExec::new();
+        for line in text.lines() {
+            if let Some(rest) = line.strip_prefix("n ") {
+                if let Some(sdh) = rest.strip_prefix("reset ") {
+                    node = Some(node::NodeExec::new(sdh == "1", tables.clone()));
+                    println!("ok");
+                } else {
+                    let n = node.get_or_insert_with(|| node::NodeExec::new(true, tables.clone()));
+                    let op = if rest.starts_with("drain") { "drain" } else { rest };
+                    println!("{}", n.exec(op));
+                }
+            } else {
+                println!("{}", ex.exec(line));
+            }
+        }
+        return;
+    }
     let seed: u64 = arg(&args, "--seed", 1);
     let cases: usize = arg(&args, "--cases", 1000);
     let out: String = arg(&args, "--out", "out".to_string());
